@@ -2,7 +2,7 @@
 From Coq Require Import ZArith List String Bool.
 From Hexital Require Import Base.Prelude Base.Num Model.Manager Model.Candle Model.Readings Model.Engine
   Model.Analysis Inst.ZInst Proofs.AccessProofs Proofs.FrameProofs Proofs.AnalysisProofs Proofs.CausalProofs
-  Proofs.SimProofs Proofs.NonInterference.
+  Proofs.SimProofs Proofs.NonInterference Proofs.ParamProofs Proofs.NonInterferenceTF.
 Import ListNotations.
 
 (* Whatever any indicator tree does - calculate, calculate_index (positive or negative
@@ -84,4 +84,46 @@ Example C13_foreign_example :
 Proof.
   intros n sub Hn. vm_compute in Hn. vm_compute.
   destruct Hn as [<-|[<-|[<-|[]]]]; intros [H|[H|[]]]; inversion H.
+Qed.
+
+(* The same on any candle manager - a collapsing timeframe, gap filling, Heikin-Ashi, a
+   lifespan, in any combination: both sides receive the same chunks through mgr_append
+   (re-collapse, fill, conversion, trim), B calculates on both, the others do anything within
+   their frame on side 1.  Timestamps, values and B's entry agree candle by candle,
+   calculate() raises alike, and so does the next append. *)
+Theorem C13_leaf_noninterference_on_any_manager :
+  forall (O : NumOps) (B : ind O) (others : list (bool * string)),
+  i_subs O B = [] /\ i_managed O B = [] -> i_sub O B = false -> leaf_kind O (i_kind O B) = true ->
+  has_dot (i_name O B) = false -> foreign O B others ->
+  forall s1 s2 : store O, PairedM O B others s1 s2 ->
+  map (fun c => (t c, cur O (p c), alist_get (i_name O B) (inds O (p c)))) s1 =
+  map (fun c => (t c, cur O (p c), alist_get (i_name O B) (inds O (p c)))) s2 /\
+  (forall e, calculate O B s1 = Err e <-> calculate O B s2 = Err e) /\
+  (forall cfg new, match mgr_append O cfg s1 new, mgr_append O cfg s2 new with
+                   | Ok _, Ok _ => True | Err e1, Err e2 => e1 = e2 | _, _ => False end).
+Proof. intros O B others Hl Ht Hk Hn Hf s1 s2 HP. eapply noninterference_on_any_manager; eassumption. Qed.
+Print Assumptions C13_leaf_noninterference_on_any_manager.
+
+(* the paired histories on a manager are inhabited: a timeframe with gap filling, Heikin-Ashi
+   and a lifespan, four raw candles (one gap), an SMA, another member's entry as the foreign name *)
+Local Open Scope string_scope.
+Local Open Scope Z_scope.
+Definition c13_B : ind ZOps := top ZOps (K_SMA 2 "close") "SMA_2" 4.
+Definition c13_cfg : mcfg := {| tf := Some 300; fillon := true; ha := true; lifespan := Some 3600 |}.
+Definition c13_c (ts c : Z) : cd (payload ZOps) := {| t := ts; p := raw_payload ZOps (Build_ohlcv ZOps c c c c 1) |}.
+Definition c13_new := [c13_c 60 10; c13_c 120 11; c13_c 400 12; c13_c 1300 14].
+Example C13_example_foreign : foreign ZOps c13_B [(false, "OTHER")].
+Proof.
+  unfold foreign. intros n sub Hn Hin. destruct Hin as [Hin|[]]. inversion Hin as [[Hs Hr]]. clear Hin.
+  vm_compute in Hn. destruct Hn as [Hn|[Hn|[Hn|[]]]]; subst n; vm_compute in Hr; discriminate Hr.
+Qed.
+Definition c13_r0 : store ZOps := Eval vm_compute in (match mgr_append ZOps c13_cfg [] c13_new with Ok r => r | Err _ => [] end).
+Definition c13_r1 : store ZOps := Eval vm_compute in (match calculate ZOps c13_B c13_r0 with Ok r => r | Err _ => [] end).
+Lemma c13_e0 : mgr_append ZOps c13_cfg [] c13_new = Ok c13_r0. Proof. vm_cast_no_check (@eq_refl _ (Ok (A:=store ZOps) c13_r0)). Qed.
+Lemma c13_e1 : calculate ZOps c13_B c13_r0 = Ok c13_r1. Proof. vm_cast_no_check (@eq_refl _ (Ok (A:=store ZOps) c13_r1)). Qed.
+Example C13_example_paired_on_a_manager : PairedM ZOps c13_B [(false, "OTHER")] c13_r1 c13_r1 /\ List.length c13_r1 = 5%nat.
+Proof.
+  split; [|reflexivity].
+  eapply PM_other; [|apply frame_refl].
+  eapply PM_B; [|exact c13_e1|exact c13_e1]. eapply PM_append; [apply PM_init|exact c13_e0|exact c13_e0].
 Qed.
